@@ -72,7 +72,16 @@ func (c *Ctx) checkSID() {
 	if len(ws) == 0 {
 		// the writer fills a fixed-size byte slice directly (indexed stores, binary.<Order>.PutUintN): compare the two
 		// layouts byte by byte; bytes the writer leaves zero fit any reader field
-		if wl, whyNot := directByteLayout(w); wl != nil {
+		wl, whyNot := directByteLayout(w)
+		if wl == nil {
+			// ... or appends them one after the other: append(b, x, y), binary.<Order>.AppendUintN(b, v)
+			if al, why2 := appendByteLayout(w); al != nil {
+				wl = al
+			} else {
+				whyNot += "; " + why2
+			}
+		}
+		if wl != nil {
 			rl := readLayout(rs)
 			ok, detail = true, ""
 			for i, tok := range wl {
@@ -737,6 +746,118 @@ func readLayout(rs []binIO) []string {
 		out = append(out, t...)
 	}
 	return out
+}
+
+// appendByteLayout: every non-nil slice f returns is built by a chain of
+// append(prev, b...) with single bytes and binary.<Order>.AppendUintN(prev, v)
+// calls that starts from an empty slice: one token per byte, in order.
+func appendByteLayout(f *ssa.Function) ([]string, string) {
+	var layout []string
+	first := true
+	for _, ret := range an.Returns(f) {
+		res := an.ReturnResults(ret)
+		if an.IsNilConst(an.Strip(res[0])) {
+			continue
+		}
+		var toks []string
+		v := an.Strip(res[0])
+		for depth := 0; ; depth++ {
+			if depth > 64 {
+				return nil, "append chain too long"
+			}
+			if ms, ok := v.(*ssa.MakeSlice); ok {
+				if k, isK := an.IntConst(ms.Len); isK && k == 0 {
+					break
+				}
+				return nil, "the chain starts from a non-empty slice"
+			}
+			if an.IsNilConst(v) {
+				break
+			}
+			if sl, isSl := v.(*ssa.Slice); isSl {
+				// make([]byte, 0, k) with a constant k: a fresh array sliced [:0]
+				if _, isAl := sl.X.(*ssa.Alloc); isAl && sl.High != nil {
+					if k, isK := an.IntConst(sl.High); isK && k == 0 {
+						break
+					}
+				}
+			}
+			call, ok := v.(*ssa.Call)
+			if !ok {
+				return nil, "the returned slice is not built by appends only (" + an.Path(v) + ")"
+			}
+			cc := call.Common()
+			var step []string
+			if b, isB := cc.Value.(*ssa.Builtin); isB && b.Name() == "append" && len(cc.Args) == 2 {
+				// append(prev, x, y, ...): the variadic bytes sit in a fresh array
+				sl, isSl := cc.Args[1].(*ssa.Slice)
+				if !isSl {
+					return nil, "append of a slice of unknown length"
+				}
+				al, isAl := sl.X.(*ssa.Alloc)
+				if !isAl {
+					return nil, "append of a slice of unknown length"
+				}
+				at, isArr := al.Type().(*types.Pointer).Elem().Underlying().(*types.Array)
+				if !isArr {
+					return nil, "append of a slice of unknown length"
+				}
+				step = make([]string, at.Len())
+				for i := range step {
+					step[i] = "zero"
+				}
+				for _, r := range *al.Referrers() {
+					ia, isIA := r.(*ssa.IndexAddr)
+					if !isIA {
+						continue
+					}
+					k, isK := an.IntConst(ia.Index)
+					if !isK || k < 0 || k >= at.Len() {
+						return nil, "append with a non-constant element position"
+					}
+					for _, u := range *ia.Referrers() {
+						if st, isSt := u.(*ssa.Store); isSt && st.Addr == ssa.Value(ia) {
+							if z, isC := an.IntConst(st.Val); isC && z == 0 {
+								continue
+							}
+							step[k] = "byte"
+						}
+					}
+				}
+				v = an.Strip(cc.Args[0])
+			} else if g := cc.StaticCallee(); g != nil && an.FuncPkgPath(g) == "encoding/binary" && strings.HasPrefix(g.Name(), "AppendUint") && g.Signature.Recv() != nil && len(cc.Args) == 3 {
+				bits, _ := strconv.Atoi(strings.TrimPrefix(g.Name(), "AppendUint"))
+				order := "BigEndian"
+				if strings.Contains(strings.ToLower(g.Signature.Recv().Type().String()), "little") {
+					order = "LittleEndian"
+				}
+				zero := false
+				if z, isC := an.IntConst(cc.Args[2]); isC && z == 0 {
+					zero = true
+				}
+				for b := 0; b < bits/8; b++ {
+					if zero {
+						step = append(step, "zero")
+					} else {
+						step = append(step, sprintf("%s%d.%d", order, bits, b))
+					}
+				}
+				v = an.Strip(cc.Args[1])
+			} else {
+				return nil, "the returned slice passes through " + an.Path(v)
+			}
+			toks = append(step, toks...)
+		}
+		if first {
+			layout, first = toks, false
+		} else if strings.Join(layout, ",") != strings.Join(toks, ",") {
+			return nil, "different returns build different layouts"
+		}
+	}
+	if len(layout) == 0 {
+		return nil, "no append chain"
+	}
+	return layout, ""
 }
 
 // directByteLayout: f returns a byte slice made with a constant length whose
